@@ -20,6 +20,12 @@ using hv::words; using hv::to_ll;
 typedef long long ll;
 
 static const ll NAN_Z = -1000000;
+#if defined(__SANITIZE_ADDRESS__)
+static const bool kAsan = true;
+#else
+static const bool kAsan = false;
+#endif
+static bool huge_alloc(const std::string& file);
 static const ll HMOD = 1000000007LL;
 
 static const SpaceGroup* row_sg(int row) {
@@ -126,6 +132,7 @@ template<typename T> static std::string do_setup(const std::vector<std::string>&
   ll dflt = to_ll(w.at(17));
   ll seed = to_ll(w.at(18));
   std::string file = make_header(fs);
+  if (kAsan && huge_alloc(file)) return "skip-alloc";
   ll count = (ll) fs.n[0] * fs.n[1] * fs.n[2];
   if (fs.n[0] < 0 || fs.n[1] < 0 || fs.n[2] < 0) count = std::max<ll>(0, std::min<ll>(std::llabs(count), 1 << 20));
   if (count > (1 << 22)) count = 1 << 22;
@@ -513,6 +520,156 @@ static std::string o_symm(const std::vector<std::string>& w) {
   return "ok";
 }
 
+
+// ------------------------------------------------------------------ C03: safety of the readers
+static void on_alarm(int) {
+  static const char msg[] = "ALARM: time limit for one case exceeded (non-termination?)\n";
+  (void) !write(2, msg, sizeof msg - 1);
+  _exit(14);
+}
+static void write_file(const std::string& path, const std::string& bytes) {
+  fileptr_t f = file_open(path.c_str(), "wb");
+  if (!bytes.empty() && std::fwrite(bytes.data(), bytes.size(), 1, f.get()) != 1) fail("write failed");
+}
+// would the reader/set-up allocate more than ASan's allocator can give? (then only the non-ASan build runs the case)
+static bool huge_alloc(const std::string& file) {
+  if (file.size() < 1024) return false;
+  bool swap = ((unsigned char) file[4 * 53] == (is_little_endian() ? 0x11 : 0x44));
+  auto word = [&](int w) { uint32_t v; std::memcpy(&v, &file[4 * (w - 1)], 4);
+                           if (swap) v = __builtin_bswap32(v); return (long long) (int32_t) v; };
+  unsigned long long a = (unsigned long long) word(1) * (unsigned long long) word(2) * (unsigned long long) word(3);
+  unsigned long long b = (unsigned long long) word(8) * (unsigned long long) word(9) * (unsigned long long) word(10);
+  return a > (1ull << 27) || b > (1ull << 27);
+}
+template<typename T> static std::string read_and_setup(const std::string& file, int smode, int via, ll dflt) {
+  Ccp4<T> m;
+  if (via == 0) {
+    m.read_ccp4_from_memory(file.data(), file.size(), "mem");
+  } else {
+    std::string path = tmp_path(via == 2 ? ".ccp4.gz" : ".ccp4");
+    if (via == 2) {
+      gzFile g = gzopen(path.c_str(), "wb");
+      if (!file.empty()) gzwrite(g, file.data(), (unsigned) file.size());
+      gzclose(g);
+    } else {
+      write_file(path, file);
+    }
+    try { m.read_ccp4(MaybeGzipped(path)); } catch (...) { std::remove(path.c_str()); throw; }
+    std::remove(path.c_str());
+  }
+  m.setup(default_of<T>(dflt), smode == 0 ? MapSetup::Full : smode == 1 ? MapSetup::NoSymmetry : MapSetup::ReorderOnly);
+  return describe(m, dflt);
+}
+static std::string valid_file(int mode, bool swap, int ispg, int perm, ll seed) {
+  static const int perms[6][3] = {{1,2,3},{1,3,2},{2,1,3},{2,3,1},{3,1,2},{3,2,1}};
+  FileSpec fs;
+  int n[3] = {4, 6, 2};
+  int pos[3];
+  for (int i = 0; i < 3; ++i) { fs.axes[i] = perms[perm][i]; pos[perms[perm][i] - 1] = i; }
+  for (int i = 0; i < 3; ++i) { fs.samp[i] = n[i]; fs.n[pos[i]] = n[i] - (i == 0 ? 1 : 0); fs.start[pos[i]] = i; }
+  fs.mode = mode; fs.swap = swap; fs.ispg = ispg; fs.nsymbt = 80;
+  std::string file = make_header(fs);
+  file.append(80, ' ');
+  for (ll k = 0; k < (ll) fs.n[0] * fs.n[1] * fs.n[2]; ++k) append_value(file, mode, valfn(seed, k), swap);
+  return file;
+}
+// o_trunc T mode swap ispg perm via : every prefix of a valid file, every set-up mode: value or exception
+template<typename T> static std::string o_trunc(const std::vector<std::string>& w) {
+  std::string file = valid_file((int) to_ll(w.at(1)), to_ll(w.at(2)) != 0, (int) to_ll(w.at(3)), (int) to_ll(w.at(4)), 5);
+  int via = (int) to_ll(w.at(5));
+  size_t step = via == 0 ? 1 : 37;
+  int n_ok = 0;
+  std::vector<size_t> cuts;
+  for (size_t cut = 0; cut < file.size(); cut += step) cuts.push_back(cut);
+  cuts.push_back(file.size());
+  for (size_t cut : cuts)
+    for (int smode = 0; smode < 3; ++smode) {
+      alarm(20);
+      try { read_and_setup<T>(file.substr(0, cut), smode, via, std::is_same<T, float>::value ? NAN_Z : -1); ++n_ok; }
+      catch (std::exception&) {}
+      alarm(0);
+    }
+  if (n_ok < 1) return "the complete file was not readable";
+  return "ok";
+}
+// o_fuzz T mode swap via seed count : random corruption of header words of a valid file
+template<typename T> static std::string o_fuzz(const std::vector<std::string>& w) {
+  int mode = (int) to_ll(w.at(1)); bool swap = to_ll(w.at(2)) != 0; int via = (int) to_ll(w.at(3));
+  unsigned long long st = (unsigned long long) to_ll(w.at(4)) * 6364136223846793005ULL + 1442695040888963407ULL;
+  auto rnd = [&]() { st = st * 6364136223846793005ULL + 1442695040888963407ULL; return (unsigned) (st >> 33); };
+  int count = (int) to_ll(w.at(5));
+  static const int words[] = {1, 2, 3, 4, 5, 6, 7, 8, 9, 10, 17, 18, 19, 23, 24, 54};
+  static const long long vals[] = {0, 1, -1, 2, 3, 4, 7, -2, -4, 80, 84, 160, 1000, 65536, 4000000, 4000004, -80,
+                                   2147483647LL, -2147483648LL, 2147483646LL, -2147483647LL, 1073741824LL, 46341, 1291};
+  for (int t = 0; t < count; ++t) {
+    std::string file = valid_file(mode, swap, (rnd() % 3 == 0) ? 75 : (rnd() % 2 ? 19 : 1), rnd() % 6, t);
+    int nmut = 1 + rnd() % 3;
+    for (int k = 0; k < nmut; ++k) {
+      int wd = words[rnd() % (sizeof words / sizeof words[0])];
+      long long v = vals[rnd() % (sizeof vals / sizeof vals[0])];
+      if (rnd() % 4 == 0) { uint32_t cur; std::memcpy(&cur, &file[4 * (wd - 1)], 4); if (swap) cur = __builtin_bswap32(cur);
+                            long long c = (int32_t) cur; v = (rnd() % 3 == 0) ? c * 2 : (rnd() % 2 ? c + 1 : c - 1); }
+      if (wd == 54) file[4 * 53 + (rnd() % 2)] = (char) rnd();
+      else put32(file, wd, (uint32_t) v, swap);
+    }
+    if (rnd() % 5 == 0) file.resize(rnd() % (file.size() + 1));
+    if (kAsan && huge_alloc(file)) continue;
+    for (int smode = 0; smode < 3; ++smode) {
+      alarm(20);
+      try { read_and_setup<T>(file, smode, via, std::is_same<T, float>::value ? NAN_Z : -1); }
+      catch (std::exception&) {}
+      alarm(0);
+    }
+  }
+  return "ok";
+}
+
+// mstream size op op ... : r<len> s<n> g<size> c t   buffer byte i is '\n' iff i % 7 == 6
+static std::string mstream(const std::vector<std::string>& w) {
+  size_t size = (size_t) to_ll(w.at(0));
+  std::vector<char> buf(size + 1, 'a');
+  for (size_t i = 0; i < size; ++i) if (i % 7 == 6) buf[i] = '\n';
+  // the stream sees exactly `size` bytes placed at the END of an allocation: reads past the end are caught
+  std::vector<char> exact(buf.begin(), buf.begin() + size);
+  exact.reserve(1);   // a non-null pointer also for the empty buffer
+  MemoryStream ms(exact.data(), exact.size());
+  std::string out;
+  for (size_t i = 1; i < w.size(); ++i) {
+    char op = w[i][0];
+    ll arg = w[i].size() > 1 ? to_ll(w[i].substr(1)) : 0;
+    ll ret = 0;
+    if (op == 'r') { std::vector<char> dst((size_t) std::min<ll>(arg, 1 << 22) + 1); ret = ms.read(dst.data(), (size_t) arg); }
+    else if (op == 's') ret = ms.skip((size_t) arg);
+    else if (op == 'g') { std::vector<char> dst((size_t) arg + 1); ret = ms.gets(dst.data(), (int) arg) != nullptr; }
+    else if (op == 'c') { int c = ms.getc(); ret = c == EOF ? -1 : 1; }
+    else if (op == 't') { std::string rest = ms.read_rest(); ret = 1; }
+    out += (out.empty() ? "" : " ") + std::to_string(ms.tell()) + ":" + std::to_string(ret);
+  }
+  return out;
+}
+
+// gz isize total gzsize hex : uncompress_into_buffer on the given .gz bytes
+static std::string gz_cmd(const std::vector<std::string>& w, bool want_hash) {
+  std::string bytes = hv::hex_decode(w.at(3));
+  std::string path = tmp_path(".gz");
+  write_file(path, bytes);
+  std::string res;
+  alarm(10);
+  try {
+    MaybeGzipped in(path);
+    CharArray a = in.uncompress_into_buffer();
+    res = "OK " + std::to_string(a.size());
+    if (want_hash) {
+      ll h = 0;
+      for (size_t i = 0; i < a.size(); ++i) h = (h * 31 + (unsigned char) a.data()[i]) % HMOD;
+      res += " " + std::to_string(h);
+    }
+  } catch (std::exception&) { res = "EXC"; }
+  alarm(0);
+  std::remove(path.c_str());
+  return res;
+}
+
 // ------------------------------------------------------------------ dispatcher
 static std::string handle(const std::string& cmd, const std::string& args) {
   std::vector<std::string> w = words(args);
@@ -597,8 +754,19 @@ static std::string handle(const std::string& cmd, const std::string& args) {
   if (cmd == "o_perm") return w.at(0) == "f" ? o_perm<float>(w) : o_perm<int8_t>(w);
   if (cmd == "o_wr") return w.at(0) == "f" ? o_wr<float>(w) : o_wr<int8_t>(w);
   if (cmd == "o_asu") return o_asu(w);
+  if (cmd == "o_trunc") return w.at(0) == "f" ? o_trunc<float>(w) : o_trunc<int8_t>(w);
+  if (cmd == "o_fuzz") return w.at(0) == "f" ? o_fuzz<float>(w) : o_fuzz<int8_t>(w);
+  if (cmd == "mstream") return mstream(w);
+  if (cmd == "gz") return gz_cmd(w, false);
+  if (cmd == "o_gzx") { std::string r = gz_cmd(w, false); return "ok"; }
   if (cmd == "o_symm") return o_symm(w);
   return "UNKNOWN-COMMAND";
 }
 
-int main() { return hv::serve(handle); }
+int main() {
+  signal(SIGALRM, on_alarm);
+  if (!kAsan) {   // address-space limit so that absurd allocations throw std::bad_alloc
+    struct rlimit rl; rl.rlim_cur = rl.rlim_max = 2ull << 30; setrlimit(RLIMIT_AS, &rl);
+  }
+  return hv::serve(handle);
+}
